@@ -337,10 +337,60 @@ def r10d(ctx, run):
         raise LookupError("literal index check (IndexOutOfBounds) in globals.rs")
 
 
+def r10e(ctx, run):
+    """EVERY index is checked: in the Index arm no path returns before the bounds check - not even when there is nothing to load (an item type of size
+    zero): the index expression still has to be evaluated and compared with the length.  A return that comes before the check must follow a call of
+    a helper that evaluates the index and performs the same check."""
+    sfn = ctx.syn.fn("FunctionCompiler::compile_expr_with_args", "codegen/src/compiler/functions.rs")
+    arm = None
+    for m in synq.matches_on(sfn.body):
+        for h, p_, g, b, a in synq.match_table(m):
+            if h and h.endswith("Expr::Index") and a["end"] - a["ln"] > 20:
+                arm = (p_, b, a)
+    if arm is None:
+        raise LookupError("Expr::Index arm")
+    body = arm[1]
+    stmts = body["s"]
+    chk = next((i for i, st in enumerate(stmts) if any(x.get("k") == "mcall" and x["m"] == "compile_unreachablez" for x in walk(st))), None)
+    if chk is None:
+        raise LookupError("the bounds check of the Index arm")
+    helpers = {f.qual.rsplit("::", 1)[-1]: f for f in ctx.syn.fns_in("codegen/src/compiler/functions.rs") if f.impl_ty and f.impl_ty.startswith("FunctionCompiler") and f.body is not None}
+
+    def checking_helper(name):
+        f = helpers.get(name)
+        if f is None:
+            return False
+        c = canon(f.body)
+        has_check = any(x.get("k") == "mcall" and x["m"] == "compile_unreachablez" for x in walk(f.body))
+        cmp_ok = any(x.get("k") == "mcall" and x["m"] == "icmp" and x["a"] and canon(x["a"][0]).endswith("UnsignedLessThan") for x in walk(f.body))
+        evals_index = any(x.get("k") == "mcall" and x["m"] in ("compile_expr", "compile_expr_with_args") and x["a"] and x["a"][0].get("k") == "path" and x["a"][0]["p"] in f.param_names()
+                          for x in walk(f.body))
+        return has_check and cmp_ok and evals_index
+    n = 0
+    early = [(st, r) for st in stmts[:chk] for r in walk(st) if r.get("k") == "return"]
+    for st, r in early:
+        n += 1
+        # the block the return sits in: calls made before it
+        blk = next((b_ for b_ in walk(st) if b_.get("k") == "block" and any(x is r for s2 in b_["s"] for x in walk(s2))), None)
+        before = []
+        if blk is not None:
+            for s2 in blk["s"]:
+                if any(x is r for x in walk(s2)):
+                    break
+                before += [x["m"] for x in walk(s2) if x.get("k") == "mcall" and canon(x["r"]) == "self"]
+        good = any(checking_helper(m_) for m_ in before)
+        run.check(good, sfn.site(r["ln"]), "the early return at line %d follows a helper that evaluates and checks the index (%s)" % (r["ln"], [m_ for m_ in before if checking_helper(m_)][:1]),
+                  sfn.qual, "return-before-bounds-check", sfn.file, r["ln"],
+                  "the Index arm returns at line %d before the bounds check (condition: `%s`): for such an index expression neither the index is evaluated nor an out-of-range "
+                  "index reported" % (r["ln"], canon(st.get("e", {}).get("c", {}))[:60] if st.get("k") == "expr" else ""))
+    run.ok(sfn.site(stmts[chk]["ln"]), "the Index arm has %d return(s) before its bounds check, each behind a checking helper" % n)
+
+
 def rules(ctx):
     return [
         Rule("R10.a", "Expr::Index: check `index <u len` with the right operands dominates every use of the element address", 7, r10a),
         Rule("R10.b", "#unwrap: variant check dominates unwrap_sum_ty for tagged unions and nullable pointers", 3, r10b),
         Rule("R10.c", "fault path: brif(cond, pass, fail); puts(message), exit(1), trap in order", 10, r10c),
         Rule("R10.d", "literal index >= array size is rejected at compile time", 1, r10d),
+        Rule("R10.e", "every index is checked: no return before the bounds check in the Index arm (zero-sized items included)", 1, r10e),
     ]
